@@ -368,3 +368,31 @@ func VH_C11_Group(op int) {
 	vhAfterOp(c, fc, err, len(f1)+len(f2), "group")
 	vhFollowUp(c, fc, want, "group")
 }
+
+// ApiVersions answered with an error code and a non-empty key array (what brokers send for UNSUPPORTED_VERSION):
+// the error is reported, the connection stays aligned on the next frame and the next operation works.
+func VH_C11_ApiVersionsError(nKeys int) {
+	code := vhInt16("error_code")
+	want := vhInt64("last_offset")
+	w := &vhW{}
+	w.i16(code)
+	w.i32(int32(nKeys))
+	for i := 0; i < nKeys; i++ {
+		w.i16(int16(i))
+		w.i16(0)
+		w.i16(vhInt16("max_version"))
+	}
+	f1 := vhFrameOf(1, w.b)
+	f2 := vhListOffsetsFrame(2, "t", 0, 0, -1, want)
+	fc := &vhFakeConn{data: append(append([]byte{}, f1...), f2...)}
+	c := NewConnWith(fc, ConnConfig{Topic: "t", Partition: 0, ClientID: "vh"})
+	vs, err := c.ApiVersions()
+	if code == 0 {
+		vhAssert(err == nil && len(vs) == nKeys, "apiversions-ok")
+	} else {
+		vhAssert(vhIsKafkaError(err) && errors.Is(err, Error(code)), "apiversions-reports-the-code")
+		vhReach("c11-apiversions-error")
+	}
+	vhAfterOp(c, fc, err, len(f1), "apiversions")
+	vhFollowUp(c, fc, want, "apiversions")
+}
